@@ -158,6 +158,9 @@ macro_rules! slice_2d {
             let (a1, st1, c1, k1) = m1.unwrap();
             let parent_len = ($d0 - 1) * $s0 + ($d1 - 1) * $s1 + 1;
             if let Some(Ok((range, l))) = r2 {
+                // Also for empty results: the storage range handed to the view
+                // must lie inside the parent (TensorBase::slice asserts it).
+                assert!(range.start <= range.end && range.end <= parent_len, "slice range outside the parent");
                 assert!(eq(l.shape, [c0, c1]), "sliced shape differs from the model");
                 let i: [usize; 2] = kani::any();
                 kani::assume(i[0] < c0 && i[1] < c1);
@@ -172,6 +175,7 @@ macro_rules! slice_2d {
                 } else {
                     (c1, a0, $s0, a1, st1, $s1)
                 };
+                assert!(range.start <= range.end && range.end <= parent_len, "slice range outside the parent");
                 assert!(eq(l.shape, [c]), "sliced shape differs from the model");
                 let i: usize = kani::any();
                 kani::assume(i < c);
